@@ -6,6 +6,7 @@ import (
 	"fmt"
 	"io"
 	"slices"
+	"sync"
 
 	"reduction.dev/reduction/dkv/kv"
 	"reduction.dev/reduction/dkv/sst"
@@ -18,6 +19,9 @@ import (
 const checkpointsFileName = "checkpoints"
 
 type CheckpointList struct {
+	// The list is used by the database's own checkpointing and by the job's
+	// retention updates, which arrive concurrently.
+	mu                        sync.Mutex
 	checkpoints               []*Checkpoint
 	checkpointsPendingRemoval []*Checkpoint // Track removed checkpoints so they can be destroyed on Save
 }
@@ -41,10 +45,15 @@ func (cl *CheckpointList) Add(ckptID uint64, ll *sst.LevelList, w *wal.Writer, l
 		WALs:       []wal.Handle{w.Handle(ll.LatestSeqNum)},
 		LastSeqNum: lastSeqNum,
 	}
+	cl.mu.Lock()
+	defer cl.mu.Unlock()
 	cl.checkpoints = append(cl.checkpoints, cp)
 }
 
 func (cl *CheckpointList) Save(fs storage.FileSystem) (string, error) {
+	cl.mu.Lock()
+	defer cl.mu.Unlock()
+
 	// Collect a list of checkpoint docs for serialization
 	checkpointDocs := make([]checkpointDocument, len(cl.checkpoints))
 	for i, ckpt := range cl.checkpoints {
@@ -93,6 +102,9 @@ func (cl *CheckpointList) Latest() *Checkpoint {
 // RetainOnly keeps only the checkpoints with the specified IDs in the list. Other checkpoints
 // aren't really removed until the next successful Save.
 func (cl *CheckpointList) RetainOnly(ids []uint64) {
+	cl.mu.Lock()
+	defer cl.mu.Unlock()
+
 	idsSet := ds.SetOf(ids...)
 	var newestRetainedID uint64
 	for _, id := range ids {
@@ -120,6 +132,9 @@ func (cl *CheckpointList) RetainOnly(ids []uint64) {
 }
 
 func (cl *CheckpointList) IncludesTable(uri string) bool {
+	cl.mu.Lock()
+	defer cl.mu.Unlock()
+
 	for _, cp := range cl.checkpoints {
 		if cp.IncludesTable(uri) {
 			return true
